@@ -137,8 +137,11 @@ func S2a(tier string, fees bool) *Scenario {
 		Cancellers: []string{"auc1"},
 		MaxK:       7, Rejects: true, BlockStops: []int{1, 2, 3, 4, 5, 6},
 	}
-	bud := Budget{"create": 1, "allow": 2, "update": 1, "bid": 2, "mod": 1, "cancel": 1, "block": 5, "tick": 1}
+	bud := Budget{"create": 1, "allow": 2, "update": 0, "bid": 2, "mod": 1, "cancel": 1, "block": 4, "tick": 1}
 	exts := []uint32{0, 2}
+	if tier != "thorough" {
+		al.AllowCaps = []string{"10"} // the lower cap is reached through update_allowed(2)
+	}
 	if tier == "thorough" {
 		exts = []uint32{0, 1, 2}
 		al.WorthAmts = []string{"2", "6"}
@@ -178,10 +181,11 @@ func S2b(tier string, ext uint32, fees bool) *Scenario {
 		UpdateCaps:  []string{"2"},
 		BatchPrices: []string{"0.5", "3"}, WorthAmts: []string{"7"}, ManyAmts: []string{"3"},
 		ModPrices: []string{"3"}, ModAmts: []string{"9"},
-		MaxK: 7, BlockStops: []int{2, 3, 4, 5, 6, 7},
+		MaxK: 7, BlockStops: []int{2, 3, 4, 5, 6},
 	}
-	bud := Budget{"update": 1, "bid": 3, "mod": 1, "block": 5}
+	bud := Budget{"update": 1, "bid": 3, "mod": 1, "block": 4}
 	if tier == "thorough" {
+		al.BlockStops = []int{2, 3, 4, 5, 6, 7}
 		al.WorthAmts = []string{"2", "7"}
 		al.ManyAmts = []string{"3", "8"}
 		al.BatchPrices = []string{"0.5", "1", "3", "0.333333333333333333"}
